@@ -1,14 +1,65 @@
 import CssVerif.Lemmas.SheetEdit
-/-! # C09 — a stylesheet stays structurally valid under any sequence of DOM edits (work in progress) -/
-namespace CssVerif.C09
-open CssVerif.SheetEdit
+/-!
+# C09 — a stylesheet stays structurally valid under any sequence of DOM edits
 
-/-- a refused `deleteRule` leaves the state untouched -/
-theorem delete_refused_unchanged (st : St) (i : Int) (e : Err) (h : (deleteRule st i).2 = .err e) :
-    (deleteRule st i).1 = st := by
-  unfold deleteRule at *
-  split <;> try rfl
-  split <;> try rfl
-  split <;> simp_all
+Property theorems only (helpers: `Lemmas/SheetEdit.lean`; specification: `Model/SheetValid.lean`; model:
+`Model/SheetEdit.lean`, tied to the source by the lock-step correspondence of `tools/harness/c09.py` and by the
+generated tables `Gen/C09RuleKinds.lean`).
+-/
+namespace CssVerif.C09
+open CssVerif.SheetEdit CssVerif.SheetEdit.Wit
+
+/-! ## T9.1a — order and @charset clause -/
+
+/-- **T9.1a** FULL STATEMENT: `∀ st op, TopOK st.rules → TopOK (step st op).1.rules` — refuted for the code as it is by
+the two witnesses `order_breaks_add_variables`, `order_breaks_inorder_index` below (known findings).
+
+PROVED: every operation — accepted, refused, or interrupted by an exception — leaves the sheet's list ordered
+(@charset only first, @import < @namespace < @variables < style/@media/@page/@font-face), for every state, rule kind,
+index, string or object argument, raise or log-only mode, EXCEPT the operations of `OrderRegion`: `add(@variables)` /
+`insertRule(…, inOrder=True)` in the two regions described there. -/
+theorem step_order_partial (st : St) (op : Op) (h : TopOK st.rules) (hr : ¬ OrderRegion st op) :
+    TopOK (step st op).1.rules := by
+  cases op with
+  | insert s i v => exact insertRule_topOK st s i false v _ h (by simp) (by simp)
+  | add s v =>
+    exact insertRule_topOK st s none true v _ h (by
+      intro ⟨_, hk, hb⟩; exact hr ⟨hk, hb⟩) (by simp)
+  | insertOrdered s i v =>
+    apply insertRule_topOK st s (some i) true v _ h
+    · intro ⟨_, hk, hb⟩; exact hr (Or.inl ⟨hk, hb⟩)
+    · intro _ hf
+      right
+      by_cases hi : i = (st.rules.length : Int)
+      · rw [hi]
+      · exact absurd (Or.inr ⟨hf, hi⟩) hr
+  | delete i => exact deleteRule_topOK st i h
+  | setEncoding e v => exact setEncoding_topOK st e v h
+  | setText specs => exact setText_topOK st specs h
+  | nsSet p u => exact nsSet_topOK st p u h
+  | nsDel p => exact nsDel_topOK st p h
+  | nInsert path s i v => unfold TopOK; rw [step, nInsert_kinds]; exact h
+  | nDelete path i => unfold TopOK; rw [step, nDelete_kinds]; exact h
+  | nSetText path kids => unfold TopOK; rw [step, nSetText_kinds]; exact h
+  | setMode b => exact h
+
+/-! machine-checked witnesses of the two order findings (the model exhibits them; the harness replays them on the
+implementation on every run) -/
+
+/-- C09-add-variables-scan: `/*c*/ @import "x";` then `add(@variables{…})` puts @variables first -/
+theorem order_breaks_add_variables :
+    let st := run (St.empty) [.setText [commentS, importS]]
+    TopOK st.rules ∧ ¬ TopOK (step st (.add varsS false)).1.rules := by
+  decide
+
+/-- C09-inorder-index-not-ignored: `@import "x";` then `insertRule(@namespace, 0, inOrder=True)` puts it first -/
+theorem order_breaks_inorder_index :
+    let st := run (St.empty) [.add importS false]
+    TopOK st.rules ∧ ¬ TopOK (step st (.insertOrdered (nsS 0x70 0x75) 0 false)).1.rules := by
+  decide
+
+/-- non-vacuity: outside the region the same operations are covered, e.g. `add(@variables)` after `@import; /*c*/` -/
+example : ¬ OrderRegion (run (St.empty) [.setText [importS, commentS]]) (.add varsS false) := by
+  decide
 
 end CssVerif.C09
